@@ -27,21 +27,26 @@ var GlobalValues map[string]r.Element
 
 // init function
 func init() {
+	globalValues = NewGlobalValues()
 
-	//// predefined values - those variables (symbols) are defined before
-	//// any execution procedure.
-	//// NOTICE: those variables are all constants!
-	globalValues = map[string]r.Element{
+	GlobalValues = globalValues
+}
+
+// NewGlobalValues - the predefined values (symbols) of ONE execution - those variables
+// are defined before any execution procedure.
+// NOTICE: those variables are all constants! However 数值 can be changed by its own methods
+// (自增/自减) and the 异常 type by 如何新建异常？, so every execution gets its own instances -
+// whatever a program does to them must not be seen by the executions that follow.
+func NewGlobalValues() map[string]r.Element {
+	return map[string]r.Element{
 		"真":    ZnConstBoolTrue,
 		"假":    ZnConstBoolFalse,
 		"空":    ZnConstNull,
-		"异常":   ZnConstExceptionClass,
+		"异常":   newExceptionModel(),
 		"显示":   ZnConstDisplayFunc,
 		"取随机数": ZnConstGetRandomFloat,
 		"数值":   &value.Number{},
 	}
-
-	GlobalValues = globalValues
 }
 
 func newExceptionModel() *value.ClassModel {
